@@ -4,7 +4,7 @@
          kind 0 = LocatableOverlapIterator, 1 = LocatableByAlleleOverlapIterator
          otype 0/1/2 = Equality/Intersects/Subset
          input := (record ...)
-         record := (id truthy tumor normal chromosome start end ref (alt ...))
+         record := (id truthy tumor normal chromosome start end ref (alt ...))   tumor, normal := () | (str)
          reply := (init step ...)   init := (0 (consumed ...)) | (1 exn)
                   step := (outcome (consumed ...)), at most `calls` calls of
                   next(), the run stops after StopIteration (other exceptions
@@ -26,7 +26,7 @@ From MafVerif Require Import lib.Base lib.Str model.Overlap model.OverlapStream.
 Definition dec_rec (s : sexp) : option orec :=
   match s with
   | L [A i; t; tu; no; ch; A st; A en; rf; al] =>
-    match as_bool t, as_str tu, as_str no, as_str ch, as_str rf, as_listof as_str al with
+    match as_bool t, as_opt as_str tu, as_opt as_str no, as_str ch, as_str rf, as_listof as_str al with
     | Some t', Some tu', Some no', Some ch', Some rf', Some al' =>
       Some {| rid := i; rtruthy := t'; rtumor := tu'; rnormal := no'; rchr := ch';
               rstart := st; rend := en; oref := rf'; oalts := al' |}
